@@ -26,14 +26,17 @@ func main() {
 	specs := []spec{
 		{2048, "sim A", "01"},
 		{2048, "sim B", "02"},
-		{3072, "sim C", "80f1e2d3c4b5a697"},           // high bit set: DER needs a leading zero
-		{4096, "sim D", "00ff00ff00ff00ff00ff"},       // leading zeros in the source
-		{2048, "sim A", "01"},                         // k4: same issuer AND serial as k0, different key
-		{2048, "sim E", "02"},                         // k5: same serial as k1, different issuer
-		{2048, "sim B", "03"},                         // k6: same issuer as k1, different serial
+		{3072, "sim C", "80f1e2d3c4b5a697"},     // high bit set: DER needs a leading zero
+		{4096, "sim D", "00ff00ff00ff00ff00ff"}, // leading zeros in the source
+		{2048, "sim A", "01"},                   // k4: same issuer AND serial as k0, different key
+		{2048, "sim E", "02"},                   // k5: same serial as k1, different issuer
+		{2048, "sim B", "03"},                   // k6: same issuer as k1, different serial
 		{2048, "sim F with a rather long common name to change certificate length", "7f"},
 	}
 	for i, s := range specs {
+		if _, err := os.Stat(fmt.Sprintf("%s/k%d.key.pem", out, i)); err == nil {
+			continue // never regenerate an existing fixture
+		}
 		key, err := rsa.GenerateKey(rand.Reader, s.bits)
 		if err != nil {
 			panic(err)
@@ -51,9 +54,42 @@ func main() {
 		if err != nil {
 			panic(err)
 		}
-		kb, _ := x509.MarshalPKCS8PrivateKey(key)
-		os.WriteFile(fmt.Sprintf("%s/k%d.key.pem", out, i), pem.EncodeToMemory(&pem.Block{Type: "PRIVATE KEY", Bytes: kb}), 0o644)
-		os.WriteFile(fmt.Sprintf("%s/k%d.cert.pem", out, i), pem.EncodeToMemory(&pem.Block{Type: "CERTIFICATE", Bytes: der}), 0o644)
+		write(out, fmt.Sprint("k", i), key, der)
 		fmt.Println(i, s.bits, s.cn, s.serial, len(der))
 	}
+	// k8, k9: leaf certificates issued by a separate CA (issuer != subject)
+	if _, err := os.Stat(out + "/ca.key.pem"); err != nil {
+		caKey, _ := rsa.GenerateKey(rand.Reader, 2048)
+		caT := &x509.Certificate{
+			SerialNumber: big.NewInt(0x0c0a), Subject: pkix.Name{CommonName: "sim CA", Organization: []string{"verif sim"}},
+			NotBefore: time.Date(1999, 1, 1, 0, 0, 0, 0, time.UTC), NotAfter: time.Date(2099, 1, 1, 0, 0, 0, 0, time.UTC),
+			IsCA: true, BasicConstraintsValid: true, KeyUsage: x509.KeyUsageCertSign,
+		}
+		caDER, err := x509.CreateCertificate(rand.Reader, caT, caT, &caKey.PublicKey, caKey)
+		if err != nil {
+			panic(err)
+		}
+		write(out, "ca", caKey, caDER)
+		caCert, _ := x509.ParseCertificate(caDER)
+		for i, serial := range []int64{0x1001, 0x1002} {
+			key, _ := rsa.GenerateKey(rand.Reader, 2048)
+			t := &x509.Certificate{
+				SerialNumber: big.NewInt(serial), Subject: pkix.Name{CommonName: fmt.Sprintf("sim leaf %d", i), Organization: []string{"verif sim"}},
+				NotBefore: time.Date(1999, 1, 1, 0, 0, 0, 0, time.UTC), NotAfter: time.Date(2099, 1, 1, 0, 0, 0, 0, time.UTC),
+				KeyUsage: x509.KeyUsageDigitalSignature, ExtKeyUsage: []x509.ExtKeyUsage{x509.ExtKeyUsageCodeSigning},
+			}
+			der, err := x509.CreateCertificate(rand.Reader, t, caCert, &key.PublicKey, caKey)
+			if err != nil {
+				panic(err)
+			}
+			write(out, fmt.Sprint("k", 8+i), key, der)
+			fmt.Println(8+i, "leaf of sim CA", len(der))
+		}
+	}
+}
+
+func write(out, name string, key *rsa.PrivateKey, der []byte) {
+	kb, _ := x509.MarshalPKCS8PrivateKey(key)
+	os.WriteFile(fmt.Sprintf("%s/%s.key.pem", out, name), pem.EncodeToMemory(&pem.Block{Type: "PRIVATE KEY", Bytes: kb}), 0o644)
+	os.WriteFile(fmt.Sprintf("%s/%s.cert.pem", out, name), pem.EncodeToMemory(&pem.Block{Type: "CERTIFICATE", Bytes: der}), 0o644)
 }
